@@ -261,14 +261,15 @@ def meta_package():
     return _state["meta_mod"]
 
 
-def meta_markers() -> sched.MarkerSet:
-    """Every line of every method of XmlMeta / XmlVar that touches the object is a yield point (constructors
+def meta_markers(context_only: bool = False) -> sched.MarkerSet:
+    """(context_only: only the methods of XmlContext - a coarser grain that makes two preemptions affordable.)
+    Every line of every method of XmlMeta / XmlVar that touches the object is a yield point (constructors
     excluded: an object under construction is not shared yet).  The binding metadata is handed out by the shared
     context, so lazily computed state on it is shared state."""
     import inspect
 
     ms = []
-    for cls in (XmlMeta, XmlVar):
+    for cls in (() if context_only else (XmlMeta, XmlVar)):
         for name, member in vars(cls).items():
             fn = member.fget if isinstance(member, property) else member
             if name == "__init__" or not inspect.isfunction(fn):
